@@ -146,6 +146,37 @@ def run(ctx):
     ra.inst("parse-path call graph", None, "ok" if not sccs else "cycles", {"functions": len(reach), "direct_edges": sum(len(v) for v in direct.values())})
     ra.require(1, "graph")
 
+    # loops of the runtime
+    from .. import loops
+    rl = ctx.rule("R11-LOOPS", "every loop in pest_typed (and in the expansions of its macros) ends for a structural reason: `for` over a finite "
+                  "iterator; `for` over `0..` only in the repetition nodes (R19-BOUNDS: goes on only after a matched iteration); `while`/`loop`: "
+                  "every path back to the loop head changes something the exit conditions read")
+    rep_prefix = ("<pest_typed::predefined_node::repetition::", "pest_typed::predefined_node::repetition::")
+    kinds = {}
+    for cn in ("pest_typed", "fx_macros"):
+        cr = fs[cn]
+        for fid, bs in cr.bodies.items():
+            if "::tests::" in fid:
+                continue
+            for r in loops.analyse(cr, fid, bs[0]):
+                kinds[r["kind"]] = kinds.get(r["kind"], 0) + 1
+                if r["kind"] in ("for-finite", "while-ok"):
+                    rl.inst(r["key"], r["loc"], "ok: " + r["kind"], r["detail"])
+                elif r["kind"] == "for-unbounded":
+                    if fid.startswith(rep_prefix):
+                        rl.inst(r["key"], r["loc"], "ok: unbounded range in a repetition node (exits: R19-BOUNDS)", r["detail"])
+                    else:
+                        rl.violate(r["key"], "`for` over an unbounded range outside the repetition nodes", r["loc"])
+                elif r["kind"] == "while-stuck":
+                    rl.violate(r["key"], "a path from the loop head back to the loop head changes nothing the exit conditions read (%s): "
+                               "once taken it is taken forever" % ", ".join(r["detail"]["conditions_read"]), r["loc"])
+                elif r["kind"] == "for-unknown":
+                    rl.violate(r["key"], "`for` over an iterator type that is not known to be finite: %s" % r["detail"]["iterator"], r["loc"])
+                else:
+                    rl.violate(r["key"], "loop without a recognisable exit (%s)" % r["kind"], r["loc"])
+    rl.note("loops: %s" % sorted(kinds.items()))
+    rl.require(100, "loops")
+
     # progress: a terminal that succeeds on a non-empty match moves the real cursor, else `(.. ~ ANY)*`-style loops never end
     from .. import prims
     rpg = ctx.rule("R11-PROGRESS", "necessary for termination of repetitions over consuming bodies: every consuming Input primitive that reports "
